@@ -121,6 +121,11 @@ pub struct DlScenario {
     /// are passed on as they are) instead of `new`.
     #[serde(default)]
     pub no_interpretation: bool,
+    /// The remote delivers one event for the lane BEFORE it answers the first link request (events of another
+    /// downlink to the same node and lane that is already linked reach a new runtime like this): the consumers waiting
+    /// to be linked must still be linked, synced and served afterwards.
+    #[serde(default)]
+    pub early_event: bool,
     pub ending: DlEnding,
     /// At quiescence (consumers attached) let time pass: the runtime must not stop.
     pub idle_probe: bool,
@@ -227,6 +232,7 @@ pub fn generate(seed: u64, map: bool) -> DlScenario {
     }
     DlScenario {
         map,
+        early_event: root.sub("early-event").chance(1, 6),
         no_interpretation: map && !ignore_bad_frames && root.sub("no-interpretation").chance(1, 4),
         ignore_bad_frames,
         consumers,
@@ -609,6 +615,7 @@ async fn remote_lane(
     let mut out = Some(to_runtime);
     let mut buf = BytesMut::new();
     let mut value: i32 = 0;
+    let mut early_sent = false;
     let mut map: BTreeMap<i32, i32> = BTreeMap::new();
     let mut polls: u32 = 0;
     let mut script: Vec<RemoteOp> = sc.remote.clone();
@@ -708,6 +715,14 @@ async fn remote_lane(
             match req.envelope {
                 Operation::Link => {
                     hist.borrow_mut().requests.push((now_step(), "link".into()));
+                    if sc.early_event && !early_sent && !linked {
+                        early_sent = true;
+                        // Not recorded as emitted: no consumer is linked yet, nobody is owed this event.
+                        let body = if sc.map { format!("@update(key:{}) {}", wire_key(101), 777_001) } else { "777001".to_string() };
+                        if send(&mut out, ResponseMessage::event(origin, addr(), body.as_bytes())).await {
+                            hist.borrow_mut().marks.push((now_step(), "remote-early-event".into()));
+                        }
+                    }
                     linked = true;
                     send(&mut out, ResponseMessage::linked(origin, addr())).await;
                 }
@@ -1136,6 +1151,9 @@ fn check(rec: &Record) -> Vec<Violation> {
             for x in notes.iter() {
                 if let Note::Value(v) = &x.2 {
                     match idx.get(&v.to_string()) {
+                        // The event the remote delivered before `linked` (a value the lane did hold; nobody is owed it, a
+                        // synced consumer may be given it as the current value).
+                        None if sc.early_event && *v == 777_001 => {}
                         None => out.push(Violation::new("C07", "C07.invented", "", format!("consumer {}: received value {v} that the lane never emitted", c.id))),
                         Some(positions) => {
                             // The latest emission not after what was already seen ... any occurrence >= last is fine.
@@ -1424,6 +1442,7 @@ impl World for DlrtWorld {
         out.count("probe.commands_superseded", written.saturating_sub(h.received.len() as u64));
         out.count("fault.consumer_drop", h.writes.iter().filter(|w| matches!(w.3, COp::Drop)).count() as u64);
         out.count("fault.remote_unlinked", h.marks.iter().filter(|(_, m)| m == "remote-unlinked").count() as u64);
+        out.count("fault.remote_event_before_linked", h.marks.iter().filter(|(_, m)| m == "remote-early-event").count() as u64);
         out.count("fault.remote_bad_frame", h.marks.iter().filter(|(_, m)| m.starts_with("remote-bad-frame")).count() as u64);
         out.count("fault.clock_advance", rec.time_advances);
         out.count("probe.late_joiner", rec.sc.consumers.iter().filter(|c| c.attach_delay >= 30).count() as u64);
